@@ -443,7 +443,7 @@ def analysis_case_st(draw, tier):
     ls = chart["lists"]
     vals = [r["bpm"] for r in ls["bpms"]] + [120.0, 150.0]
     times = {r["offset"] for r in ls["bpms"]}
-    for _ in range(draw(st.integers(0, 6 if big else 4))):
+    for _ in range(draw(st.one_of(st.integers(0, 6), st.integers(0, 40)) if big else st.integers(0, 4))):
         t = float(draw(st.one_of(st.integers(-4, 240).map(lambda i: i * 125), st.integers(-2000, 200000))))
         if t in times:
             continue
@@ -651,7 +651,8 @@ def write_osu_case_st(draw, tier):
     from vlib.gen import osu as G
 
     big = tier == "thorough"
-    chart = draw(G.chart_strategy(tier, kind="memory", max_notes=40 if big else 12, max_tempo=10 if big else 4, meta=draw(st.sampled_from(["plain", "plain", "rich"]))))
+    # shuffle=False: the generated lists are in time order (the file of A is then in time order whatever the writer does)
+    chart = draw(G.chart_strategy(tier, kind="memory", max_notes=40 if big else 12, max_tempo=10 if big else 4, meta=draw(st.sampled_from(["plain", "plain", "rich"])), shuffle=draw(st.booleans())))
     return dict(chart=chart, perm=draw(perm_st(("hits", "holds", "bpms", "svs", "samples"))))
 
 
